@@ -10,6 +10,8 @@
 //!
 //! Usage: typed <outdir> <seed> <cases>
 
+use aldrin_core::introspection::ir::LayoutIr;
+use aldrin_core::introspection::LexicalId;
 use aldrin_core::{Bytes, Enum, ObjectCookie, ObjectId, ObjectUuid, SerializedValue, ServiceCookie, ServiceId, ServiceUuid, Struct, Value};
 use std::collections::{BTreeMap, HashMap, HashSet};
 use std::fmt::Write as _;
@@ -25,6 +27,15 @@ pub struct TypeEntry {
     pub name: &'static str,
     pub desc: &'static str,
     pub rt: fn(&SerializedValue) -> Result<SerializedValue, String>,
+    /// what the type's introspection layout has to be, from the schema (types in `<…>`)
+    pub lay: &'static str,
+    pub layout: fn() -> LayoutIr,
+}
+
+pub struct SvcEntry {
+    pub name: &'static str,
+    pub lay: &'static str,
+    pub layout: fn() -> LayoutIr,
 }
 
 thread_local! {
@@ -442,6 +453,95 @@ fn top_level_expectation(def: &Def, v0: &Value, v: &Value, out: &str, e: &TypeEn
     }
 }
 
+// ------------------------------------------------------------------------------------------------
+// introspection layouts (C20): what the derive / `service!` macros say about a type against its schema
+
+fn lex(t: &Ty) -> LexicalId {
+    match t {
+        Ty::Prim(p) => match p.as_str() {
+            "bool" => LexicalId::BOOL, "u8" => LexicalId::U8, "i8" => LexicalId::I8, "u16" => LexicalId::U16, "i16" => LexicalId::I16,
+            "u32" => LexicalId::U32, "i32" => LexicalId::I32, "u64" => LexicalId::U64, "i64" => LexicalId::I64, "f32" => LexicalId::F32,
+            "f64" => LexicalId::F64, "string" => LexicalId::STRING, "uuid" => LexicalId::UUID, "object_id" => LexicalId::OBJECT_ID,
+            "service_id" => LexicalId::SERVICE_ID, "value" => LexicalId::VALUE, "bytes" => LexicalId::BYTES, "lifetime" => LexicalId::LIFETIME,
+            "unit" => LexicalId::UNIT,
+            other => panic!("unknown primitive {} in a layout description", other),
+        },
+        Ty::Opt(t) => LexicalId::option(lex(t)),
+        Ty::BoxT(t) => LexicalId::box_ty(lex(t)),
+        // the code generator gives `vec<u8>` the Rust type of `bytes` (codegen/src/rust.rs `type_name`)
+        Ty::Vec(t) if matches!(&**t, Ty::Prim(p) if p == "u8") => LexicalId::BYTES,
+        Ty::Vec(t) => LexicalId::vec(lex(t)),
+        Ty::Map(k, t) => LexicalId::map(lex(k), lex(t)),
+        Ty::Set(t) => LexicalId::set(lex(t)),
+        Ty::Result(a, b) => LexicalId::result(lex(a), lex(b)),
+        Ty::Arr(t, n) => LexicalId::array(lex(t), *n as u32),
+        Ty::Sender(t) => LexicalId::sender(lex(t)),
+        Ty::Receiver(t) => LexicalId::receiver(lex(t)),
+        Ty::Ref(r) => {
+            let (schema, name) = r.split_once('.').unwrap();
+            LexicalId::custom(schema, name)
+        }
+    }
+}
+
+/// the expected layout with every `<type>` replaced by its lexical id
+fn expand_layout(lay: &str) -> String {
+    let mut out = String::new();
+    let mut rest = lay;
+    while let Some(i) = rest.find('<') {
+        out.push_str(&rest[..i]);
+        // types nest `<`-free; the matching `>` is the next one
+        let j = rest[i..].find('>').unwrap() + i;
+        let t = P { s: rest[i + 1..j].as_bytes(), i: 0 }.ty();
+        write!(out, "<{}>", lex(&t)).unwrap();
+        rest = &rest[j + 1..];
+    }
+    out.push_str(rest);
+    out
+}
+
+fn opt_lex(l: Option<LexicalId>) -> String {
+    l.map_or("-".to_string(), |l| format!("<{}>", l))
+}
+
+fn render_layout(l: &LayoutIr) -> String {
+    match l {
+        LayoutIr::BuiltIn(b) => format!("builtin {:?}", b),
+        LayoutIr::Struct(s) => format!("struct {}.{} {{{}}} fb={}", s.schema(), s.name(),
+            s.fields().values().map(|f| format!("{}:{}:{}:<{}>;", f.id(), f.name(), if f.is_required() { "r" } else { "o" }, f.field_type())).collect::<String>(),
+            s.fallback().map_or("-", |f| f.name())),
+        LayoutIr::Enum(e) => format!("enum {}.{} {{{}}} fb={}", e.schema(), e.name(),
+            e.variants().values().map(|v| format!("{}:{}:{};", v.id(), v.name(), opt_lex(v.variant_type()))).collect::<String>(),
+            e.fallback().map_or("-", |f| f.name())),
+        LayoutIr::Newtype(n) => format!("newtype {}.{} <{}>", n.schema(), n.name(), n.target_type()),
+        LayoutIr::Service(s) => format!("service {}.{} uuid={} version={} fns{{{}}} evs{{{}}} fnfb={} evfb={}", s.schema(), s.name(), s.uuid().0, s.version(),
+            s.functions().values().map(|f| format!("{}:{}:{}:{}:{};", f.id(), f.name(), opt_lex(f.args()), opt_lex(f.ok()), opt_lex(f.err()))).collect::<String>(),
+            s.events().values().map(|e| format!("{}:{}:{};", e.id(), e.name(), opt_lex(e.event_type()))).collect::<String>(),
+            s.function_fallback().map_or("-", |f| f.name()), s.event_fallback().map_or("-", |f| f.name())),
+    }
+}
+
+/// every generated type and service: the layout the generated code reports is the one its schema describes
+fn check_layouts(oracle: &mut impl Write, dist: &mut BTreeMap<String, u64>) -> usize {
+    let mut fails = 0;
+    let mut one = |name: &str, lay: &str, layout: fn() -> LayoutIr, dist: &mut BTreeMap<String, u64>| {
+        let want = expand_layout(lay);
+        let got = catch_unwind(AssertUnwindSafe(|| render_layout(&layout()))).unwrap_or_else(|_| "PANIC".to_string());
+        *dist.entry(format!("layout.{}", want.split(' ').next().unwrap())).or_insert(0) += 1;
+        if want != got {
+            writeln!(oracle, "FAIL C20 line=0 the introspection layout of the generated code differs from its schema: expected `{}` ({}), generated `{}` type={} input=-", want, lay, got, name).unwrap();
+            fails += 1;
+        }
+    };
+    for e in registry() {
+        one(e.name, e.lay, e.layout, dist);
+    }
+    for s in services() {
+        one(s.name, s.lay, s.layout, dist);
+    }
+    fails
+}
+
 fn main() {
     let args: Vec<String> = std::env::args().collect();
     if args.len() < 4 {
@@ -466,7 +566,7 @@ fn main() {
     let mut dist: BTreeMap<String, u64> = BTreeMap::new();
     let mut samples = vec![];
     let mut lines = 1usize;
-    let mut fails = 0usize;
+    let mut fails = check_layouts(&mut oracle, &mut dist);
     for case in 0..cases {
         let e = &reg[(case as usize) % reg.len()];
         let def = env[e.name].clone();
